@@ -37,6 +37,7 @@ type Engine struct {
 	sentinel     map[string]bool // heap keys (G|...) of sentinel globals
 	uncontracted map[string]int
 	assumedUsed  map[string]bool
+	degraded     []string
 	atCallSeen   map[*Clause]bool
 	inlinedUsed  map[string]bool
 	funcConsts   map[string]string
@@ -1320,18 +1321,46 @@ func (e *Engine) execFrom(fr *Frame, st *State, b *ssa.BasicBlock, idx int, k re
 					continue
 				}
 			}
-			e.errorf("%s: instruction %T at %s is outside the verifiable subset", fr.fn, instr, e.posStr(instr.Pos()))
-			return
+			e.degrade(fr, st, instr, fmt.Sprintf("instruction %T is outside the verifiable subset", instr))
+			continue
 		default:
 			v, err := e.simpleInstr(fr, st, instr)
 			if err != nil {
-				e.errorf("%s: %v at %s", fr.fn, err, e.posStr(instr.Pos()))
-				return
+				e.degrade(fr, st, instr, err.Error())
+				continue
 			}
 			if val, ok := instr.(ssa.Value); ok && v != nil {
 				fr.env[val] = v
 			}
 		}
+	}
+}
+
+// degrade: an instruction the generator cannot model.  Instead of giving up on the function (which would leave every
+// obligation of the property undecided), the execution continues on a sound over-approximation: the instruction's
+// result is an arbitrary value of its type and the whole heap (this path's own allocations included) may have changed.  Obligations that
+// still discharge are proved; those that do not are reported with this note attached (recorded as a warning and in
+// the report's `degraded` list).  Nothing on the unchanged tree takes this route.
+func (e *Engine) degrade(fr *Frame, st *State, instr ssa.Instruction, why string) {
+	msg := fmt.Sprintf("%s: %s at %s: continuing on an over-approximation (result arbitrary, heap havocked)", fr.fn, why, e.posStr(instr.Pos()))
+	e.warnf("%s", msg)
+	e.degraded = append(e.degraded, msg)
+	for _, a := range st.allocs {
+		st.escaped[a] = true // the instruction may have written through any of its operands
+	}
+	e.havocAllHeap(st)
+	if val, ok := instr.(ssa.Value); ok {
+		if tup, ok := val.Type().(*types.Tuple); ok {
+			res := &Val{S: "TUPLE", Typ: val.Type()}
+			for i := 0; i < tup.Len(); i++ {
+				so := e.reg.sortOf(tup.At(i).Type())
+				res.Tup = append(res.Tup, &Val{T: st.fresh("degraded", so), S: so, Typ: tup.At(i).Type()})
+			}
+			fr.env[val] = res
+			return
+		}
+		so := e.reg.sortOf(val.Type())
+		fr.env[val] = &Val{T: st.fresh("degraded", so), S: so, Typ: val.Type()}
 	}
 }
 
